@@ -29,6 +29,10 @@ def jobs():
         js.append(Job("L1-check-segment@n%d" % n, "C16/c16.c", "c16_l1_check_segment", UNITS, extra_src=EXTRA, defines=["N=%d" % n, "ENV_NO_ALLOC"], unwind=n + 3,
                       tier="quick" if n <= 4 else "thorough", group="L1-check-segment", termination=True,
                       desc="check_segment() vs reference on every %d-byte segment (exact-size: reads stay inside)" % n, bounds={"n": n}))
+    for n in range(0, 6):
+        js.append(Job("L1-replace-percents@n%d" % n, "C16/c16.c", "c16_l1_replace_percents", UNITS, extra_src=EXTRA, defines=["N=%d" % n, "ENV_NO_ALLOC"], unwind=n + 3,
+                      tier="quick" if n <= 4 else "thorough", group="L1-replace-percents", termination=True,
+                      desc="coap_replace_percents on every %d-byte option value (exact-size: reads stay inside)" % n, bounds={"n": n}))
     for q, qn in ((0, "path"), (1, "query")):
         for n in range(0, 7):
             variants = [("functional", 2 * n + 2, True)] + [("safety-bl%d" % b, b, False) for b in sorted(set([0, 1, 2, n]))]
